@@ -487,7 +487,7 @@ func c16Chains() []any {
 
 func c16Strings(maxLen int) []string {
 	// ... plus a byte that is not UTF-8 (spelled \xff) and the replacement character itself (a perfectly valid rune)
-	alpha := []string{"a", "/", "~", "\"", "`", "\\", " ", "\n", "\r", "\x00", "é", "0", "-", ".", "\xff", "\ufffd"}
+	alpha := []string{"a", "/", "~", "\"", "`", "\\", " ", "\n", "\r", "\x00", "é", "0", "-", ".", "\xff", "\ufffd", "\u200b"}
 	out := []string{""}
 	prev := []string{""}
 	for n := 1; n <= maxLen; n++ {
@@ -557,6 +557,15 @@ func runC16(c *eng.Ctx) {
 		trees := c16Trees(c16Leaves(3), 2)
 		trees = append(trees, c16Trees(c16Leaves(nl), 3)...)
 		trees = append(trees, c16Chains()...)
+		// selectors that PRINT alike but are different paths, side by side in one expression (both orders, also in a quantifier): each keeps
+		// its own path through parsing
+		{
+			ab, a_b := &Match{Sel: []string{"m", "a.b"}, Op: OpEq, Lit: "1"}, &Match{Sel: []string{"m", "a", "b"}, Op: OpEq, Lit: "2"}
+			sl, s_l := &Match{Sel: []string{"m", "a/b"}, Op: OpIn, Lit: "x"}, &Match{Sel: []string{"m", "a", "b"}, Op: OpEmpty}
+			trees = append(trees, &Bin{Or: false, L: ab, R: a_b}, &Bin{Or: true, L: a_b, R: ab}, &Bin{Or: false, L: sl, R: s_l}, &Bin{Or: true, L: s_l, R: sl},
+				&Quant{All: false, Sel: []string{"m", "a.b"}, Mode: BindValue, Val: "x", Body: &Bin{Or: false, L: a_b, R: &Match{Sel: []string{"x", "a.b"}, Op: OpEq, Lit: "1"}}},
+				&Not{X: &Bin{Or: true, L: &Match{Sel: []string{"m", "a", "b"}, Op: OpMatches, Lit: "x"}, R: &Match{Sel: []string{"m", "a.b"}, Op: OpMatches, Lit: "x"}}})
+		}
 		c.MaxOf("trees", int64(len(trees)))
 		for ti, t := range trees {
 			unit++
@@ -591,6 +600,26 @@ func runC16(c *eng.Ctx) {
 				o = base
 				o.litStyle, o.selSpell, o.contains = StyleQuoted, 3, true
 				try(o)
+			}
+		}
+	}
+	// ---- F2b: look-alike selectors side by side, in every selector spelling ----
+	if c.Want("f", 4) {
+		ab, a_b := &Match{Sel: []string{"m", "a.b"}, Op: OpEq, Lit: "1"}, &Match{Sel: []string{"m", "a", "b"}, Op: OpEq, Lit: "2"}
+		sl, s_l := &Match{Sel: []string{"m", "a/b"}, Op: OpIn, Lit: "x"}, &Match{Sel: []string{"m", "a", "b"}, Op: OpEmpty}
+		special := []any{&Bin{Or: false, L: ab, R: a_b}, &Bin{Or: true, L: a_b, R: ab}, &Bin{Or: false, L: sl, R: s_l}, &Bin{Or: true, L: s_l, R: sl},
+			&Quant{All: false, Sel: []string{"m", "a.b"}, Mode: BindValue, Val: "x", Body: &Bin{Or: false, L: a_b, R: &Match{Sel: []string{"x", "a.b"}, Op: OpEq, Lit: "1"}}},
+			&Not{X: &Bin{Or: true, L: &Match{Sel: []string{"m", "a", "b"}, Op: OpMatches, Lit: "x"}, R: &Match{Sel: []string{"m", "a.b"}, Op: OpMatches, Lit: "x"}}},
+			&Bin{Or: false, L: &Match{Sel: []string{"a", "b c"}, Op: OpEq, Lit: "1"}, R: &Bin{Or: true, L: &Match{Sel: []string{"a", "b c"}, Op: OpNe, Lit: "2"}, R: &Match{Sel: []string{"a", "b", "c"}, Op: OpEq, Lit: "3"}}}}
+		for ti, t := range special {
+			for spell := 0; spell < 4; spell++ {
+				for wi, ws := range wsStyles {
+					unit++
+					if !c.Mine(unit) || !c.Want("u", unit) {
+						continue
+					}
+					c16Check(c, t, rendOpts{ws: ws, selSpell: spell, litStyle: StyleQuoted, parenNode: -1, notnot: -1}, map[string]int{"f": 4, "u": unit, "t": ti, "w": wi}, true)
+				}
 			}
 		}
 	}
